@@ -294,6 +294,17 @@ func (s *Session) Mail(from string, opts *smtp.MailOptions) error {
 	s.msgLock.Lock()
 	defer s.msgLock.Unlock()
 
+	// go-smtp does not refuse MAIL inside of an open transaction. Starting
+	// another delivery here would leave the current one (and its limits)
+	// dangling.
+	if s.delivery != nil {
+		return &smtp.SMTPError{
+			Code:         503,
+			EnhancedCode: smtp.EnhancedCode{5, 5, 1},
+			Message:      "Nested MAIL command, use RSET to abort the current transaction",
+		}
+	}
+
 	if !s.endp.deferServerReject {
 		// Will initialize s.msgCtx.
 		msgID, err := s.startDelivery(s.sessionCtx, from, *opts)
